@@ -331,4 +331,57 @@ Definition ops_C02_toarray : list opdef := [
        | _ => VBad end) |}
 ].
 
-Definition ops_C02 : list opdef := ops_C02_base ++ ops_C02_widen ++ ops_C02_next ++ ops_C02_toarray.
+(** * widened: select against PrevOne (C13's function): [a; PrevOne(words, 0, a)] with (a, _) = select(i);
+      PrevOne is not called when a = 0 (its range would be empty) *)
+Definition c02_sel_prev (ws : list Z) (sel : option (Z * Z)) : val :=
+  match sel with
+  | Some (a, _) =>
+      if 1 <=? a then
+        match PrevOne ws 0 a with
+        | Some pv => VL [VZ a; VZ pv]
+        | None => VPanic
+        end
+      else VL [VZ a; VZ (-1)]
+  | None => VPanic
+  end.
+
+Definition c02_sel_prev_spec (ws : list Z) (i : Z) : val :=
+  VL [VZ (fst (spec_Select ws i)); VZ (if 0 <? i then fst (spec_Select ws (i - 1)) else -1)].
+
+Definition ops_C02_prev : list opdef := [
+  {| op_name := "bitmap.PrevOne/Select32";
+     op_run := fun a => match a with
+       | [ws; i] => match as_zs ws, as_z i with
+           | Some ws, Some i =>
+               if c02_in_range ws i then
+                 match IndexSelect32 ws with
+                 | Some sidx => c02_sel_prev ws (Select32 ws sidx i)
+                 | None => VPanic
+                 end
+               else VBad
+           | _, _ => VBad end
+       | _ => VBad end;
+     op_spec := fun_spec (fun a => match a with
+       | [ws; i] => match as_zs ws, as_z i with
+           | Some ws, Some i => c02_sel_prev_spec ws i | _, _ => VBad end
+       | _ => VBad end) |};
+  {| op_name := "bitmap.PrevOne/Select32R64";
+     op_run := fun a => match a with
+       | [ws; i] => match as_zs ws, as_z i with
+           | Some ws, Some i =>
+               if c02_in_range ws i then
+                 match IndexSelect32R64 ws with
+                 | Some (sidx, ridx) => c02_sel_prev ws (Select32R64 ws sidx ridx i)
+                 | None => VPanic
+                 end
+               else VBad
+           | _, _ => VBad end
+       | _ => VBad end;
+     op_spec := fun_spec (fun a => match a with
+       | [ws; i] => match as_zs ws, as_z i with
+           | Some ws, Some i => c02_sel_prev_spec ws i | _, _ => VBad end
+       | _ => VBad end) |}
+].
+
+Definition ops_C02 : list opdef :=
+  ops_C02_base ++ ops_C02_widen ++ ops_C02_next ++ ops_C02_toarray ++ ops_C02_prev.
